@@ -69,6 +69,13 @@ var Seeds = [][]string{
 	{"T", "|", "where", "not", "(", "a", ")", "or", "isnull", "(", "b", "[", "'s'", "]", ")"},
 	{"T", "|", "as", "U", "|", "count"},
 	{"T", "|", "where", "(", "a", "+", "b", ")", "*", "2.5", ">=", "-", "1"},
+	// 12-17: expression constructs inside every operator's argument positions, nesting
+	{"T", "|", "summarize", "f", "(", "b", ")", ",", "a", "in", "(", "1", ")", "by", "b", "in", "(", "2.5", ")", ",", "a"},
+	{"T", "|", "sort", "by", "a", "in", "(", "1", ")", "asc", ",", "f", "(", "b", ")", "desc", "|", "top", "1", "by", "b", "[", "1", "]"},
+	{"T", "|", "project", "a", "in", "(", "1", ")", ",", "b", "=", "not", "(", "a", ")", "|", "extend", "f", "(", "a", ",", ")"},
+	{"T", "|", "join", "(", "U", "|", "join", "(", "T", ")", "on", "a", ")", "on", "$left", ".", "a", "==", "f", "(", "1", ")", ",", "b", "in", "(", "1", ")"},
+	{"let", "a", "=", "f", "(", "1", ")", ";", "let", "b", "=", "a", ";", "T", "|", "take", "1", ";"},
+	{"T", "|", "where", "a", "in", "(", "f", "(", "1", ",", ")", ",", "b", "[", "1", "]", ")", "|", "count", "|", "as", "U"},
 }
 
 func vocabIndex(vocab []string, lex string) int {
